@@ -1151,11 +1151,21 @@ class PyExec:
             if isinstance(f, Exc):
                 yield s, f
                 continue
-            for s2, args in self.ev_list(list(n.args) + [k.value for k in n.keywords], s):
+            starred = [isinstance(a, ast.Starred) for a in n.args]
+            nodes = [a.value if isinstance(a, ast.Starred) else a for a in n.args]
+            for s2, args in self.ev_list(nodes + [k.value for k in n.keywords], s):
                 if isinstance(args, Exc):
                     yield s2, args
                     continue
-                pos = args[:len(n.args)]
+                pos = []
+                for v, star in zip(args[:len(n.args)], starred):
+                    if star:
+                        # f(*seq): only for sequences whose length is known at this level
+                        if not isinstance(v, (list, tuple)):
+                            raise PyNotSupported("*args with a sequence of unknown length (line %d)" % n.lineno)
+                        pos.extend(v)
+                    else:
+                        pos.append(v)
                 kw = dict(zip([k.arg for k in n.keywords], args[len(n.args):]))
                 yield from self.call(f, pos, kw, s2, n)
 
@@ -1292,6 +1302,9 @@ class PyExec:
             raise PyNotSupported("str.%s (line %d)" % (name, n.lineno))
 
     def call_builtin(self, name, pos, kw, st, n):
+        if name == 'zip' and all(isinstance(v, (list, tuple)) for v in pos):
+            yield st, list(zip(*pos))         # sequences of known length
+            return
         if name == 'len':
             v = pos[0]
             if isinstance(v, (list, tuple, dict, str)):
